@@ -16,37 +16,37 @@ import (
 // Cfg is the flat configuration record of every harness family; unused fields
 // stay zero and are omitted from the rendering.
 type Cfg struct {
-	Prop    string `json:"prop"`              // property whose clauses are enforced
-	Harness string `json:"harness"`           // registry name
-	Disc    string `json:"disc,omitempty"`    // discipline variant
-	P       []uint `json:"p,omitempty"`       // priorities
-	H       uint   `json:"h,omitempty"`       // handlers quantity
-	Div     string `json:"div,omitempty"`     // fair | rate | low (custom)
-	Cap     []int  `json:"cap,omitempty"`     // capacity per input (aligned with P) / [cap] for join
-	N       []int  `json:"n,omitempty"`       // items per input / [n]
-	Env     string `json:"env,omitempty"`     // pool | rr (receiver+releaser)
-	R       int    `json:"r,omitempty"`       // release budget
-	J       int    `json:"j,omitempty"`       // join size
-	NoCopy  bool   `json:"nocopy,omitempty"`  //
-	Timeout int64  `json:"timeout,omitempty"` // in units
-	Inacc   uint   `json:"inacc,omitempty"`   //
-	Pauses  []int64 `json:"pauses,omitempty"` // producer pause alphabet (units)
-	Delays  []int64 `json:"delays,omitempty"` // consumer delay alphabet (units)
-	Retain  []int64 `json:"retain,omitempty"` // consumer retention alphabet (units)
-	Lens    []int  `json:"lens,omitempty"`    // unite: slice length alphabet
-	Late    int    `json:"late,omitempty"`    // late tick budget
-	Horizon int64  `json:"horizon,omitempty"` // units
-	Q       uint64 `json:"q,omitempty"`       // limit quantity
-	I       int64  `json:"i,omitempty"`       // limit interval (units)
-	Stop    string `json:"stop,omitempty"`    // v1: "", stop, cancel, graceful
-	Mode    string `json:"mode,omitempty"`    // harness specific variant
-	Script  int    `json:"script,omitempty"`  // v1 add/remove script depth
-	Ops     []int  `json:"ops,omitempty"`     // v1 script: allowed operations (default all)
-	Fault   bool   `json:"fault,omitempty"`   // divider fault injection
-	Yields  int    `json:"yields,omitempty"`  // handler yields before release
-	OutCap  int    `json:"outcap,omitempty"`  // v1: capacity of the user supplied output channel
-	FbCap   int    `json:"fbcap,omitempty"`   // v1: capacity of the user supplied feedback channel
-	Tail    int64  `json:"tail,omitempty"`    // join: producer pause before closing (units)
+	Prop    string  `json:"prop"`              // property whose clauses are enforced
+	Harness string  `json:"harness"`           // registry name
+	Disc    string  `json:"disc,omitempty"`    // discipline variant
+	P       []uint  `json:"p,omitempty"`       // priorities
+	H       uint    `json:"h,omitempty"`       // handlers quantity
+	Div     string  `json:"div,omitempty"`     // fair | rate | low (custom)
+	Cap     []int   `json:"cap,omitempty"`     // capacity per input (aligned with P) / [cap] for join
+	N       []int   `json:"n,omitempty"`       // items per input / [n]
+	Env     string  `json:"env,omitempty"`     // pool | rr (receiver+releaser)
+	R       int     `json:"r,omitempty"`       // release budget
+	J       int     `json:"j,omitempty"`       // join size
+	NoCopy  bool    `json:"nocopy,omitempty"`  //
+	Timeout int64   `json:"timeout,omitempty"` // in units
+	Inacc   uint    `json:"inacc,omitempty"`   //
+	Pauses  []int64 `json:"pauses,omitempty"`  // producer pause alphabet (units)
+	Delays  []int64 `json:"delays,omitempty"`  // consumer delay alphabet (units)
+	Retain  []int64 `json:"retain,omitempty"`  // consumer retention alphabet (units)
+	Lens    []int   `json:"lens,omitempty"`    // unite: slice length alphabet
+	Late    int     `json:"late,omitempty"`    // late tick budget
+	Horizon int64   `json:"horizon,omitempty"` // units
+	Q       uint64  `json:"q,omitempty"`       // limit quantity
+	I       int64   `json:"i,omitempty"`       // limit interval (units)
+	Stop    string  `json:"stop,omitempty"`    // v1: "", stop, cancel, graceful
+	Mode    string  `json:"mode,omitempty"`    // harness specific variant
+	Script  int     `json:"script,omitempty"`  // v1 add/remove script depth
+	Ops     []int   `json:"ops,omitempty"`     // v1 script: allowed operations (default all)
+	Fault   bool    `json:"fault,omitempty"`   // divider fault injection
+	Yields  int     `json:"yields,omitempty"`  // handler yields before release
+	OutCap  int     `json:"outcap,omitempty"`  // v1: capacity of the user supplied output channel
+	FbCap   int     `json:"fbcap,omitempty"`   // v1: capacity of the user supplied feedback channel
+	Tail    int64   `json:"tail,omitempty"`    // join: producer pause before closing (units)
 
 	KeyHistory bool `json:"keyhistory,omitempty"`
 	Bound      int  `json:"bound"` // preemption bound, -1 unbounded
